@@ -123,7 +123,27 @@ if ROUND == 7:
               "C19M": "a column and a row unfolding of one tensor shape in tenmat addition",
               "C19N": "constructors called with copy=False",
               "C20M": "the same entries in an index space of more than 2^64 cells"}
-for d in sorted(SRC.glob("C??[CDEFGHIJKLMN]")):
+if ROUND == 8:
+    MISSED = {"C01P": "the result of every conversion shares no storage with its operand (overwritten afterwards)",
+              "C02O": "sparse operands with a mode longer than eight indices",
+              "C03P": "unsigned narrow numpy scalars as the second operand",
+              "C04O": "a linear index one past the end of a dense tensor (growth by linear assignment is rejected)",
+              "C05P": "sums, differences, products and quotients with an all-zero / all-one operand of the other holder kind",
+              "C06O": "a sparse block assigned through a stepped slice",
+              "C07P": "shapes with a mode of size zero for the dense, Kruskal and Tucker holders",
+              "C09P": "Tucker data whose core is rescaled in place after its norm was taken (history of the data object)",
+              "C10O": "data of magnitude 2^-70 for tucker_als (fit is scale free)",
+              "C10P": "tucker_als on a data tensor completed by assignment beyond its first shape (C-ordered storage)",
+              "C12P": "joint objective / gradient evaluation with every cell masked out (objective exactly zero)",
+              "C14P": "single-component models (a singleton mode) with negative dominant entries",
+              "C15P": "the symmetrized tensor of non-integer data passes the symmetry test",
+              "C16O": "plain arrays that are not 2-way (kind 'array' added to FileFormat)",
+              "C17O": "searches with 1030 and 2500 rows (family 'long' of Helpers_Gen)",
+              "C17P": "sub2ind / ind2sub on 2^k shapes with up to 2^62 cells as bit strings (IndexMaps_Bits)",
+              "C18P": "cp_als data with a sparsely populated mode (sparse single-mode products)",
+              "C19P": "family k_extract: component lists with negative, out-of-range and surplus entries in four spellings",
+              "C20P": "teneye of order 6"}
+for d in sorted(SRC.glob("C??[CDEFGHIJKLMNOP]")):
     rj = d / "result.json"
     if not rj.exists():
         print(d.name, "no result"); continue
